@@ -467,6 +467,16 @@ func main() {
 			name = name[:100] + r.Hex(8)
 		}
 		p := filepath.Join(files, phase+"_"+name+".dat")
+		if spec.NestFilesPct > 0 && r.Pct(spec.NestFilesPct) {
+			// the file lives in a sub-directory of the files directory: one of
+			// its own with a one-character file name, or a shared deeper one
+			if r.Pct(60) {
+				p = filepath.Join(files, phase+"_"+name+".d", []string{"f", "0", "x"}[r.Intn(3)])
+			} else {
+				p = filepath.Join(files, "n1", "n2", phase+"_"+name+".dat")
+			}
+			os.MkdirAll(filepath.Dir(p), 0755)
+		}
 		tok := r.Hex(16)
 		if spec.OutsideDir != "" && t.Kind != pgen.KPath && r.Pct(25) {
 			// a file output lying outside the pipestance (or a symlink to one)
@@ -491,7 +501,7 @@ func main() {
 				if fc.State != "ok" || fc.Tok == "" {
 					continue
 				}
-				if rel, err := filepath.Rel(files, fc.Path); err == nil && os.Symlink(rel, p) == nil {
+				if rel, err := filepath.Rel(filepath.Dir(p), fc.Path); err == nil && os.Symlink(rel, p) == nil {
 					wr = append(wr, written{Path: p, Size: fc.Size, Tok: fc.Tok, Kind: "out-symlink"})
 					return p
 				}
